@@ -106,8 +106,20 @@ def parse_frames(stderr_text):
     return fr
 
 
-def generate(rng):
-    where = rng.choice([0, 0, 1])
+MARKER = b"#\n"
+NMARKERS = 80
+
+
+def strip_markers(out):
+    """where == 2: marker lines of the two printer threads may sit between any two print
+    calls of the script (never inside one); a torn last marker is dropped as well."""
+    if out.endswith(b"#"):
+        out = out[:-1]
+    return out.replace(MARKER, b"")
+
+
+def generate(rng, concurrent=True):
+    where = rng.choice([0, 0, 1, 2] if concurrent else [0, 0, 1])
     nprints = rng.randint(0, 6)
     prints = []
     for _ in range(nprints):
